@@ -258,13 +258,13 @@ func (c *child) runLink(s linkSched, frames [][]byte) {
 	}
 
 	var mu sync.Mutex
-	var panics []string
-	var stacks []string
+	var panics, wheres, stacks []string
 	guard := func(where string, f func()) {
 		defer func() {
 			if e := recover(); e != nil {
 				mu.Lock()
-				panics = append(panics, where+": "+fmt.Sprint(e))
+				panics = append(panics, fmt.Sprint(e))
+				wheres = append(wheres, where)
 				stacks = append(stacks, trimStack(debug.Stack()))
 				mu.Unlock()
 			}
@@ -452,8 +452,8 @@ loop:
 	}
 	for k, p := range panics {
 		c.count("panic_caught")
-		c.violation("panic:link:"+panicClass(p), fmt.Sprintf("panic in a goroutine of a link (%s) — delivered %d of %d messages, close mode %s", p, len(delivered), len(frames), s.CloseAt),
-			wit(map[string]interface{}{"panic": p, "stack": stacks[k], "delivered": len(delivered)}))
+		c.violation("panic:link:"+wheres[k]+":"+panicClass(p), fmt.Sprintf("Link.%s panicked (%s) — %d of %d messages had been delivered, close mode %s", wheres[k], p, len(delivered), len(frames), s.CloseAt),
+			wit(map[string]interface{}{"panic": p, "in": "Link." + wheres[k], "stack": stacks[k], "delivered": len(delivered)}))
 	}
 	next := 0 // sent frames before this index are matched or skipped
 	for k, d := range delivered {
